@@ -303,6 +303,16 @@ def check_pow(case, v):
         return v.fail("exact-not-exact", f"{txt}: exact operand gave error {err!r}")
     if case["neg"] and not _nonneg((-_mk(a)).abse()):
         return v.fail("negative-error", f"negation has error {(-_mk(a)).abse()!r}")
+    if case["neg"]:
+        # negation is multiplication by the exact number -1: the uncertainty stays what it was, for a bare magnitude
+        # and for a quantity alike (an uncertain operand does not become exact)
+        from scinumtools.units import Quantity
+        want = _err(a)
+        for what, obj in (("Magnitude", _mk(a)), ("Quantity", Quantity(_mk(a), "m"))):
+            got = (-obj).abse()
+            if (want is None) != (got is None) or (want is not None and not _eq(got, want)):
+                return v.fail("negation-error", f"-{what}({a['x']!r}, abse={a['e']!r}) has error {got!r}, expected {a['e']!r}")
+        v.label("negation_keeps_the_uncertainty")
     v.nt(p < 0 or case["neg"] or bool(np.any(_np(a["x"]) < 0)))
     v.label("pow")
 
